@@ -25,7 +25,7 @@ func init() {
 			" Added after the seeded-change rounds: (R3) provenance of every field the reader extracts and the order of the fields the writer emits; buffers are returned to the pool only at the request-side sites of C02.R3's table.",
 		Residue:   "decode(encode(x)) == x for every x (value-level round trip); behaviour for rows > 64 KiB-1 and families > 255 bytes",
 		Technique: "decision-table extraction by CFG walk under truth assignments; symbolic linear forms over SSA; width/offset agreement",
-		Run:       runC10,
+		Run:       runC10All,
 	})
 }
 
@@ -124,6 +124,19 @@ func (a *atomEval) eval(cond ssa.Value) (bool, bool) {
 		}
 		if kit.Strip(x) == a.v && kit.IsNilConst(y) {
 			return res("isNil", pol)
+		}
+	}
+	// len(v) > 0 / len(v) >= 1 / len(v) < 1 / len(v) <= 0 (either operand order)
+	if cmp, ok := kit.CanonCmp(cond, true); ok && !cmp.Bytes {
+		if l := kit.LenOf(cmp.X); l != nil && kit.Strip(l) == a.v {
+			if k, ok := kit.ConstInt(cmp.Y); ok {
+				switch {
+				case cmp.Op == token.GTR && k == 0, cmp.Op == token.GEQ && k == 1:
+					return res("lenZero", false)
+				case cmp.Op == token.LSS && k == 1, cmp.Op == token.LEQ && k == 0:
+					return res("lenZero", true)
+				}
+			}
 		}
 	}
 	a.unknown = append(a.unknown, cond.String())
@@ -545,10 +558,13 @@ func runC10(c *kit.Ctx) {
 		serialisingDoesNotChangeTheCall(c)
 		accumulatorIsHandedBack(c)
 		sendPathSharesNoMemory(c)
+		buffersAreFreedAfterTheWrite(c)
 		noResponseBufferRecycling(c)
 	}
 
 	c.StartRule("R3", "size function = bytes written = header lengths; reader's overhead constant = writer's", 5)
+	cellListRejectsOnlyWhatACellRejects(c)
+	mutationConstructorsAcceptEveryLegalSize(c)
 	eng := bounds.New(p)
 	eng.CopyAsLenSrc = true
 	// cellblockLen as a linear form over its parameters
@@ -612,6 +628,11 @@ func runC10(c *kit.Ctx) {
 						idx := paramIndex(cbl, pa)
 						alloc = alloc.Add(eng.Lin(call.Call.Args[idx]).Scale(co))
 					}
+				} else {
+					// the size written out (or computed through another helper): any expression that is linear
+					// in the four lengths
+					alloc = eng.Lin(mk.Len)
+					okAlloc = true
 				}
 			}
 			c.Check(okAlloc && isZeroLin(alloc.Sub(wantW)), app, "bytes-allocated", app.Pos(), "the buffer grows by cellblockLen of the same four lengths", "the buffer is not grown by exactly the number of bytes written")
@@ -1137,4 +1158,13 @@ func dependsOnCarried(v ssa.Value, inner *ssa.Range) bool {
 		return false
 	}
 	return walk(v, 0)
+}
+
+// runC10All: the rules of C10 plus, as embedded rules, what the cells go through between the encoder and the wire.
+func runC10All(c *kit.Ctx) {
+	runC10(c)
+	if !c.Frozen {
+		embed(c, "R6", "the cellblocks that go out are, byte for byte and in one piece, what the encoder produced for this request (the request-side rules of C05, run as one rule here)", 100, runC05)
+		embed(c, "R7", "compressed cellblocks decompress to the bytes that were compressed (the framing rules of C15, run as one rule here)", 20, runC15)
+	}
 }
